@@ -41,7 +41,7 @@ RULE = (
 ASSUMPTIONS = ["an alias registered again replaces the earlier registration for evaluations that are not already stored"]
 FLOORS = {"histories": (1500, 12000), "uncached_evaluations_exact": (4000, 35000), "cached_evaluations_checked": (4000, 35000),
           "selected_registered_impl": (1000, 10000), "late_registrations_effective": (800, 6000), "interface_member_evaluations": (15000, 50000),
-          "rejected_implementations": (2000, 3000), "reregistrations": (400, 3000), "derivative_dispatch_changes": (150, 1200), "self_referential_evaluations": (2000, 16000), "datasets_copied_mid_history": (800, 6000)}
+          "rejected_implementations": (2000, 3000), "reregistrations": (400, 3000), "derivative_dispatch_changes": (150, 1200), "self_referential_evaluations": (2000, 16000), "datasets_copied_mid_history": (800, 6000), "interfaces_with_tuple_aliases": (400, 3200), "prefix_dispatch_evaluations": (72, 72)}
 SHARDS_QUICK = 4
 ALIASES = ["x", "y", "z", 0, 1, None, "a", {"tuple": ["ds1", "default"]}, {"tuple": ["t", 1]}]
 
@@ -284,6 +284,14 @@ def run_history(ctx, H, tag):
 def interface_case(ctx, r):
     log = Log()
     disp_key = r.choice(["D", "I.KIND"])
+    # every third interface dispatches on a VALUE computed from the option (a two-part key given as a JSON list becomes
+    # a tuple): a tuple alias is one alias - only a list spells several
+    tuple_mode = r.random() < 0.35
+
+    def as_alias(v):
+        return tuple(v) if isinstance(v, list) else v
+
+    dispatch = (Option(disp_key) >> as_alias) if tuple_mode else disp_key
 
     def body(tag):
         def f():
@@ -310,15 +318,17 @@ def interface_case(ctx, r):
                 ns[m] = staticmethod(body(f"{name}.{m}:default"))
             else:
                 ns[m] = Option("Z", f"{name}.{m}:default")
-        return interface(disp_key)(type(name, (), ns)), members
+        return interface(dispatch)(type(name, (), ns)), members
 
     I1, mem1 = make_iface("I1")
     ifaces = [(I1, mem1, "I1")]
     if r.random() < 0.4:
         I2, mem2 = make_iface("I2")
         ifaces.append((I2, mem2, "I2"))
-    aliases_all = ["a", "b", "c", 1, "x"]
+    aliases_all = ["a", "b", "c", 1, "x"] + ([("t", 1), ("a", "b")] if tuple_mode else [])
     r.shuffle(aliases_all)
+    if tuple_mode:
+        ctx.count("interfaces_with_tuple_aliases")
     expected = {}  # (iface name, member) -> {alias: tag}
     for (_, mem, name) in ifaces:
         for m in mem:
@@ -401,7 +411,7 @@ def interface_case(ctx, r):
         return
     # evaluate every member under every alias (and an unregistered one)
     for alias in aliases_all[:ai] + ["unregistered"]:
-        o = U.set_path({}, disp_key, alias)
+        o = U.set_path({}, disp_key, list(alias) if isinstance(alias, tuple) else alias)
         for (I, mem, name) in ifaces:
             for m, kind in mem.items():
                 got = observe(getattr(I, m).evaluate, copy.deepcopy(o))
@@ -500,7 +510,57 @@ def self_referential(ctx, r, case):
     ctx.nontrivial(spec_hash(["self-referential", form, trail]))
 
 
+def prefix_dispatch(ctx):
+    """The dispatch key's NAME extends the name of another key the implementations read (D / D2, S.X / S.XL, L.1 / L.10):
+    they are different keys, and a value stored for one dispatch value is not returned for another."""
+    def options_for(short, long, sv, lv):
+        if short.startswith("L."):
+            lst = ["pad"] * 11
+            lst[1] = sv
+            if lv is not None:
+                lst[10] = lv
+            else:
+                lst = lst[:10]
+            return {"L": lst}
+        o = U.set_path({}, short, sv)
+        return U.set_path(o, long, lv) if lv is not None else o
+
+    for short, long in (("D", "D2"), ("S.X", "S.XL"), ("L.1", "L.10"), ("A", "A_KIND")):
+        for cache_mode in ("memory", "off"):
+            def default(v=Option(short, "dflt")):
+                return ("default", v)
+
+            ds = dataset(default, dispatch=long)
+
+            def impl_x(v=Option(short, "dflt")):
+                return ("x", v)
+
+            ds.overload("x")(impl_x)
+            ds.register("y", Option(short, "dflt") >> (lambda v: ("y", v)))
+            for step, (sv, lv) in enumerate([(1, "x"), (1, "y"), (1, "x"), (1, None), (1, "z"), (2, "y"), (1, "y"), (2, "x"), (1, "x")]):
+                o = options_for(short, long, sv, lv)
+                want = ("ok", canon((lv if lv in ("x", "y") else "default", sv)))
+                if cache_mode == "off":
+                    with labrea.cache.disabled():
+                        got = observe(ds.evaluate, copy.deepcopy(o))
+                else:
+                    got = observe(ds.evaluate, copy.deepcopy(o))
+                ctx.evaluations += 1
+                ctx.count("prefix_dispatch_evaluations")
+                if got != want:
+                    ctx.violation("wrong-implementation-cached" if cache_mode == "memory" else "wrong-implementation",
+                                  f"dispatch on {long!r}, implementations read {short!r}: step {step} under {short}={sv!r}, {long}={lv!r} gives {short_(got)}, the table selects {short_(want)}",
+                                  {"family": "prefix-dispatch", "short": short, "long": long, "step": step})
+                    return
+    ctx.nontrivial(spec_hash(["prefix-dispatch"]))
+
+
+short_ = short
+
+
 def run(ctx):
+    if ctx.shard == 0:
+        prefix_dispatch(ctx)
     n = ctx.n(2000, 16000)
     for i in range(n):
         r = case_rng(ctx, i)
@@ -512,7 +572,9 @@ def run(ctx):
 
 def replay(ctx, rep):
     w = rep["witness"]
-    if w.get("family") == "self-referential":
+    if w.get("family") == "prefix-dispatch":
+        prefix_dispatch(ctx)
+    elif w.get("family") == "self-referential":
         ctx.shard, ctx.shards = w.get("shard", 0), w.get("shards", 1)
         self_referential(ctx, case_rng(ctx, ("selfref", w["case"])), w["case"])
     elif "history" in w:
